@@ -678,3 +678,7 @@ mutant('W3-head-test-hoisted-before-lock', ['C17', 'C05'], [
 mutant('V1-vanished-writer-arm-dropped', ['C01'], [
     (S, "                    } else {\n                        conflict = true;\n                    }\n                } else if !matches!(version, ReadVersion::Storage) {\n                    conflict = true;\n                }\n            } else if", "                    } else {\n                        conflict = true;\n                    }\n                }\n            } else if"),
 ], ['|V1|'])
+
+mutant('L4-abort-flag-cached-outside-commit-loop', ['C05'], [
+    (S, "        let mut commit_idx = 0;\n        while !self.is_aborted() && commit_idx < self.block_size {", "        let mut commit_idx = 0;\n        let aborted = self.is_aborted();\n        while !aborted && commit_idx < self.block_size {"),
+], ['|L4|'])
